@@ -87,15 +87,37 @@ template <class App> struct Space {
         return s.empty() ? "(initial)" : s;
     }
 
-    // BFS: histories over the alphabet up to `depth` from the default instance and up to `root_depth` from every root state
+    // BFS: histories over the alphabet up to `depth` from the default instance and up to `root_depth` from every root state.
+    // A frontier state is kept as a snapshot (copy of the object); expanding it costs one dispatch and one binary canon per
+    // message. Trust checks: (i) every newly found state must also be new by its readable canon() and the number of distinct
+    // readable canons equals the number of states; (ii) a deterministic 1/64 of the merged successors is re-checked by its
+    // readable canon (must be known); (iii) when a state is later rebuilt by replaying its history on a fresh object
+    // (verify()), the canon must be the recorded one - otherwise exit 3, never a VIOLATION.
+    std::vector<H128> hash_of;
+    static H128 bin_hash(const App &inst) { sapp::Bin b; inst.canon_bin(b); return h128(b.b); }
+    void verify(const App &inst, size_t state_index) const
+    {
+        if(!(bin_hash(inst) == hash_of[state_index])) {
+            fprintf(stderr, "NONDETERMINISM: replaying the history of state %zu (%s) does not give the canon found by the search\n", state_index, show(states[state_index]).c_str());
+            exit(3);
+        }
+    }
     void explore(int depth, int root_depth)
     {
-        std::unordered_set<H128, H128hash> seen;
+        std::unordered_set<H128, H128hash> seen, seen_readable;
         std::vector<size_t> frontier;
-        auto add = [&](const Hist &h, int d) {
-            App inst; replay(inst, h);
-            if(seen.insert(h128(inst.canon())).second) { states.push_back(h); depth_of.push_back(d); frontier.push_back(states.size() - 1); return true; }
-            return false;
+        std::vector<App> snap;
+        uint64_t merged = 0;
+        auto add = [&](const App &inst, const Hist &h, int d) {
+            H128 c = bin_hash(inst);
+            if(!seen.insert(c).second) {
+                if((++merged & 63) == 0 && !seen_readable.count(h128(inst.canon()))) { fprintf(stderr, "CANON-INADEQUATE: binary canon merges states with different readable canons: %s\n", show(h).c_str()); exit(3); }
+                return false;
+            }
+            if(!seen_readable.insert(h128(inst.canon())).second) { fprintf(stderr, "CANON-INADEQUATE: binary canon splits one readable canon: %s\n", show(h).c_str()); exit(3); }
+            states.push_back(h); depth_of.push_back(d); hash_of.push_back(c);
+            frontier.push_back(states.size() - 1); snap.push_back(inst);
+            return true;
         };
         // every op must be accepted by some port from the default state or from a root (alphabet sanity; a rejected
         // message is a legal no-op in other states, e.g. /p/x while p is null)
@@ -110,22 +132,27 @@ template <class App> struct Space {
             }
             for(size_t k = 0; k < ops.size(); ++k) if(!accepted[k]) { fprintf(stderr, "HARNESS: alphabet message never accepted: %s\n", ops[k].show().c_str()); exit(3); }
         }
-        add(Hist(), 0);
-        for(size_t r = 0; r < roots.size(); ++r) add(Hist{(uint16_t)(ROOT0 + r)}, 0);
+        { App inst; add(inst, Hist(), 0); }
+        for(size_t r = 0; r < roots.size(); ++r) { App inst; Hist h{(uint16_t)(ROOT0 + r)}; replay(inst, h); add(inst, h, 0); }
         int md = std::max(depth, root_depth);
         for(int d = 0; d < md; ++d) {
             std::vector<size_t> cur; cur.swap(frontier);
-            for(size_t si : cur) {
-                Hist base = states[si];
+            std::vector<App> cur_snap; cur_snap.swap(snap);
+            for(size_t j = 0; j < cur.size(); ++j) {
+                Hist base = states[cur[j]];
                 bool rooted = !base.empty() && base[0] >= ROOT0;
                 if(d >= (rooted ? root_depth : depth)) continue;
                 for(size_t k = 0; k < ops.size(); ++k) {
+                    App t(cur_snap[j]);
+                    send(t, ops[k]);
                     Hist h = base; h.push_back((uint16_t)k);
-                    add(h, d + 1);
+                    add(t, h, d + 1);
                 }
             }
             max_depth = d + 1;
         }
+        if(seen_readable.size() != states.size()) { fprintf(stderr, "CANON-INADEQUATE: %zu readable canons for %zu states\n", seen_readable.size(), states.size()); exit(3); }
+        fprintf(stderr, "explore %s: %zu states, %.2f s since start\n", App::name(), states.size(), vp::elapsed());
     }
 };
 
@@ -292,7 +319,7 @@ template <class Work, class Crashed> void supervise(const std::string &tag, size
                 work(k);
             }
             alarm(0);
-            if(m->capped) vp::cap(tag + ": deadline after " + std::to_string(k) + " of " + std::to_string(todo) + " states of this shard (discovery order, shallow first)");
+            if(m->capped) { vp::cap(tag + ": deadline before all states were checked (each shard takes its states in discovery order, shallow first)"); vp::bound(tag + ".checked_before_deadline.shard" + std::to_string(C.shard), std::to_string(k) + " of " + std::to_string(todo)); }
             vp::finish();
             fflush(nullptr);
             _exit(0);
